@@ -644,6 +644,29 @@ pub fn run_c05(tier: Tier) -> i32 {
             }
         }
     }
+    // SAMPLING SUPPLEMENT (labelled as such; everything else in this check is enumeration): the un-hooked random draw.
+    // The draw hook decides every drawn size in the enumerated runs above, so the `rand` call itself is exercised only
+    // here: 20 000 real draws per range, every value within the range. (Not part of the deciding technique; it cannot
+    // show absence, only catch a draw that leaves its range.)
+    {
+        let mut sampled = 0u64;
+        for (lo, hi) in [(1i64, 2i64), (5, 6), (1, 4), (100, 103), (65534, 65535), (7, 9)] {
+            let Ok(f) = PaddingFactory::new(format!("stop=3\n1={lo}-{hi}\n2={hi}-{lo}").as_bytes()) else { continue };
+            rep.case(Some(&format!("sampled real draws {lo}-{hi}")));
+            let mut seen = std::collections::BTreeSet::new();
+            for i in 0..20_000u32 {
+                for s in f.generate_record_payload_sizes(1 + (i % 2)) {
+                    seen.insert(s as i64);
+                    sampled += 1;
+                }
+            }
+            let outside: Vec<i64> = seen.iter().copied().filter(|v| *v < lo || *v > hi).collect();
+            if !outside.is_empty() {
+                rep.violation("C05:drawn-size-outside-its-range", &format!("range {lo}-{hi}: real (un-hooked) draws produced {:?}", outside), json!({"engine": "sampling-supplement", "range": [lo, hi]}));
+            }
+        }
+        rep.sections.insert("sampling_supplement_real_draws".into(), json!({"draws": sampled, "note": "sampling, not enumeration: the un-hooked rand call"}));
+    }
     // packet numbering and the stop rule across a scheme change in mid-session: k packets under a scheme with stop a
     // (one 150-byte write per padded packet), a push of a scheme with stop b (200-byte writes), 4 more packets
     {
